@@ -4,6 +4,7 @@
 -/
 import PycommModel.Client
 import PycommProofs.EpathProofs
+import PycommProofs.RTLemmas
 namespace Pycomm.Cli
 open Pycomm.Tgt Pycomm.Path Pycomm.Encap
 
@@ -17,6 +18,121 @@ def ucsWrap (inner rp : Bytes) : Bytes :=
   [0x52, 0x02, 0x20, 0x06, 0x24, 0x01, 0x0a, 0x05] ++ leBytes 2 inner.length ++ inner ++
   (if inner.length % 2 == 1 then [0] else []) ++ rp
 
+/-! ### helper lemmas -/
+
+/-- a request path that parses with nothing left over parses the same way in front of any data -/
+theorem parseRequestPath_append (bs data : Bytes) (segs : List PSeg)
+    (h : parseRequestPath bs = some (segs, [])) : parseRequestPath (bs ++ data) = some (segs, data) := by
+  cases bs with
+  | nil => simp [parseRequestPath] at h
+  | cons n rest =>
+    simp only [parseRequestPath] at h
+    split at h
+    · cases h
+    · rename_i hlen
+      cases hp : parsePadded (2 * n.toNat + 1) (rest.take (2 * n.toNat)) with
+      | none => rw [hp] at h; cases h
+      | some s =>
+        rw [hp] at h
+        simp only [Option.map_some, Option.some.injEq, Prod.mk.injEq] at h
+        obtain ⟨rfl, hd⟩ := h
+        have hl : rest.length = 2 * n.toNat := by
+          have := congrArg List.length hd
+          simp at this; omega
+        have e1 : (rest ++ data).take (2 * n.toNat) = rest := by rw [← hl]; simp
+        have e2 : (rest ++ data).drop (2 * n.toNat) = data := by rw [← hl]; simp
+        have e3 : rest.take (2 * n.toNat) = rest := by rw [← hl]; simp
+        rw [e3] at hp
+        simp only [List.cons_append, parseRequestPath, List.length_append, e1, e2, hp]
+        rw [if_neg (by omega)]
+        rfl
+
+theorem isUcs_wrap (d : Bytes) : isUcs ([0x52, 0x02, 0x20, 0x06, 0x24, 0x01] ++ d) = some d := by
+  have h0 : parseRequestPath [0x02, 0x20, 0x06, 0x24, 0x01] = some ([PSeg.logical 0 6, PSeg.logical 4 1], []) := by
+    decide
+  have h1 := parseRequestPath_append _ d _ h0
+  have e : ([0x52, 0x02, 0x20, 0x06, 0x24, 0x01] ++ d : Bytes) = 0x52 :: ([0x02, 0x20, 0x06, 0x24, 0x01] ++ d) := rfl
+  rw [isUcs, e, parseMR, h1]
+  simp [classInst]
+
+theorem unwrapUcs_ok (inner route : Bytes) (hl : inner.length < 65536) (hr : route.length % 2 = 0)
+    (hrl : route.length / 2 < 256) (segs : List PSeg) (hp : parsePadded (route.length + 1) route = some segs)
+    (pad : Bytes) (hpad : pad = if inner.length % 2 == 1 then [0] else []) :
+    unwrapUcs ([0x0a, 0x05] ++ leBytes 2 inner.length ++ inner ++ pad ++
+            [UInt8.ofNat (route.length / 2), 0] ++ route) = some (inner, route) := by
+  have hpl : pad.length = inner.length % 2 := by
+    subst hpad; split <;> simp_all
+  obtain ⟨A, hA⟩ : ∃ A, A = ([0x0a, 0x05] ++ leBytes 2 inner.length : Bytes) := ⟨_, rfl⟩
+  have hAl : A.length = 4 := by subst hA; simp [RT.leBytes_length]
+  obtain ⟨T, hT⟩ : ∃ T, T = ([UInt8.ofNat (route.length / 2), 0] ++ route : Bytes) := ⟨_, rfl⟩
+  have ed : ([0x0a, 0x05] ++ leBytes 2 inner.length ++ inner ++ pad ++
+            [UInt8.ofNat (route.length / 2), 0] ++ route : Bytes) = A ++ (inner ++ (pad ++ T)) := by
+    subst hA hT; simp
+  rw [ed]
+  have hdl : (A ++ (inner ++ (pad ++ T))).length = 4 + inner.length + inner.length % 2 + 2 + route.length := by
+    subst hT; simp [hAl, hpl]; omega
+  have hlen : leAt (A ++ (inner ++ (pad ++ T))) 2 2 = inner.length := by
+    subst hA
+    have : ((([0x0a, 0x05] ++ leBytes 2 inner.length : Bytes) ++ (inner ++ (pad ++ T))).drop 2).take 2 = leBytes 2 inner.length := by
+      simp [RT.leBytes_length]
+    rw [leAt, this, RT.leVal_leBytes 2 _ (by omega)]
+  have hafter : (A ++ (inner ++ (pad ++ T))).drop (4 + inner.length + inner.length % 2) = T := by
+    have : 4 + inner.length + inner.length % 2 = (A ++ inner ++ pad).length := by simp [hAl, hpl]; omega
+    rw [this, ← List.append_assoc, ← List.append_assoc, List.drop_left]
+  have hpadz : ¬ (inner.length % 2 = 1 ∧ u8at (A ++ (inner ++ (pad ++ T))) (4 + inner.length) ≠ 0) := by
+    rintro ⟨h1, h2⟩
+    apply h2
+    have hp1 : pad = [0] := by subst hpad; simp [h1]
+    have : 4 + inner.length = (A ++ inner).length := by simp [hAl]
+    rw [u8at, this, ← List.append_assoc, hp1]
+    simp [List.getD_eq_getElem?_getD]
+  have hw : (UInt8.ofNat (route.length / 2)).toNat = route.length / 2 := by rw [EP.toNat_ofNat]; omega
+  have hT0 : u8at T 0 = route.length / 2 := by subst hT; simp [u8at, hw]
+  have hT1 : u8at T 1 = 0 := by subst hT; simp [u8at]
+  have hT2 : T.drop 2 = route := by subst hT; simp
+  have htake : ((A ++ (inner ++ (pad ++ T))).drop 4).take inner.length = inner := by
+    rw [← hAl, List.drop_left]; simp
+  unfold unwrapUcs
+  simp only [hlen, hafter, hdl, hT0, hT1, hT2, hp, htake]
+  rw [if_neg (by omega), if_neg (by omega), if_neg hpadz, if_neg (by simp), if_neg (by omega)]
+
+theorem slice_at (H X : Bytes) (n a b : Nat) (h : H.length = n) :
+    Reply.slice (H ++ X) (n + a) (n + b) = Reply.slice X a b := by
+  subst h
+  simp [Reply.slice, List.take_append, List.drop_append]
+
+theorem serviceFromReply_ok (x : UInt8) (rest : Bytes) (h : 128 ≤ x.toNat) :
+    ∃ v, Reply.serviceFromReply (x :: rest) = .ok v := by
+  simp only [Reply.serviceFromReply]
+  rw [if_neg (by omega)]
+  split
+  · split <;> exact ⟨_, rfl⟩
+  · exact ⟨_, rfl⟩
+
+theorem parseCip_ok (raw : Bytes) (tr : Reply.Transport) (P rest : Bytes) (hP : P.length = 8)
+    (hraw1 : raw = P ++ ([0, 0, 0, 0] ++ rest)) (s : UInt8) (hs : 128 ≤ s.toNat) (data H : Bytes)
+    (hH : H.length = tr.off) (hraw2 : raw = H ++ ([s, 0, 0, 0] ++ data)) :
+    (Reply.parseCip (some raw) tr).data = some data ∧ (Reply.parseCip (some raw) tr).serviceStatus = some 0 ∧
+    (Reply.parseCip (some raw) tr).commandStatus = some 0 := by
+  have b1 : Reply.slice raw 8 12 = [0, 0, 0, 0] := by
+    rw [hraw1]
+    have := slice_at P ([0, 0, 0, 0] ++ rest) 8 0 4 hP
+    simp only [Nat.add_zero] at this
+    rw [this]; simp [Reply.slice]
+  have b2 : Reply.slice raw tr.off (tr.off + 1) = [s] := by
+    rw [hraw2]
+    have := slice_at H ([s, 0, 0, 0] ++ data) tr.off 0 1 hH
+    simp only [Nat.add_zero] at this
+    rw [this]; simp [Reply.slice]
+  have b3 : Reply.slice raw (tr.off + 2) (tr.off + 3) = [0] := by
+    rw [hraw2, slice_at H ([s, 0, 0, 0] ++ data) tr.off 2 3 hH]; simp [Reply.slice]
+  have b4 : raw.drop (tr.off + 4) = data := by
+    rw [hraw2, ← hH, List.drop_append]; simp
+  have b5 : decodeIntVal .dint [0, 0, 0, 0] = .ok (0, []) := rfl
+  obtain ⟨v, hv⟩ := serviceFromReply_ok s [] hs
+  simp only [Reply.parseCip, Reply.parseBase, Reply.parseService, b1, b2, b3, b4, b5, hv]
+  exact ⟨trivial, rfl, trivial⟩
+
 -- PROPERTY THEOREMS
 
 /-- a message-router request built from (service, class, instance, attribute, data) is parsed by the target
@@ -26,11 +142,15 @@ theorem request_delivered (svc cls inst attr : Nat) (data : Bytes) (hs : svc < 2
     ∃ rp, requestPath (.int cls) (.int inst) (.int attr) = .ok rp ∧
       parseMR ([UInt8.ofNat svc] ++ rp ++ data) =
         some { service := svc, path := wantPath cls inst attr, data := data } := by
-  sorry
+  obtain ⟨rp, h1, h2⟩ := Path.request_path_denotes cls inst attr hc hi ha
+  refine ⟨rp, h1, ?_⟩
+  have h3 := parseRequestPath_append rp data _ h2
+  have hsv : (UInt8.ofNat svc).toNat = svc := by rw [EP.toNat_ofNat]; omega
+  simp only [List.cons_append, List.nil_append, parseMR, h3, hsv, wantPath]
 
 /-- the connection-manager request path used by the Unconnected Send wrapper -/
 theorem ucs_path : requestPath (.bytes [0x06]) (.bytes [0x01]) (.bytes []) = .ok [0x02, 0x20, 0x06, 0x24, 0x01] := by
-  sorry
+  rfl
 
 /-- Unconnected Send: the target recognises the wrapper, and unwrapping it yields exactly the embedded
     request (embedded length = its size, one pad byte iff the size is odd) and exactly the route path —
@@ -42,26 +162,63 @@ theorem ucs_unwrap (inner route : Bytes) (hl : inner.length < 65536) (hr : route
             [UInt8.ofNat (route.length / 2), 0] ++ route) ∧
     unwrapUcs ([0x0a, 0x05] ++ leBytes 2 inner.length ++ inner ++ (if inner.length % 2 == 1 then [0] else []) ++
             [UInt8.ofNat (route.length / 2), 0] ++ route) = some (inner, route) := by
-  sorry
+  refine ⟨?_, unwrapUcs_ok inner route hl hr hrl segs hp _ rfl⟩
+  rw [← isUcs_wrap ([0x0a, 0x05] ++ leBytes 2 inner.length ++ inner ++ (if inner.length % 2 == 1 then [0] else []) ++
+            [UInt8.ofNat (route.length / 2), 0] ++ route)]
+  congr 1
+  simp [ucsWrap]
 
 /-- a time written to the wall-clock object is the time it reports, for every 64-bit value -/
 theorem time_roundtrip (b : Base) (t : Nat) (ht : t < 2 ^ 64) :
     let b' := (wallClockSet b (leBytes 2 1 ++ leBytes 2 6 ++ leBytes 8 t)).1
     b'.timeUs = t ∧
     wallClockGet b' [1, 0, 0x0B, 0] = { data := leBytes 2 1 ++ leBytes 2 0x0B ++ leBytes 2 0 ++ leBytes 8 t } := by
-  sorry
+  have e : leBytes 2 1 ++ leBytes 2 6 ++ leBytes 8 t = [1,0,6,0] ++ leBytes 8 t := rfl
+  have hl : ([1,0,6,0] ++ leBytes 8 t).length = 12 := by simp [RT.leBytes_length]
+  have h1 : leAt ([1,0,6,0] ++ leBytes 8 t) 0 2 = 1 := rfl
+  have h2 : leAt ([1,0,6,0] ++ leBytes 8 t) 2 2 = 6 := rfl
+  have h3 : leAt ([1,0,6,0] ++ leBytes 8 t) 4 8 = t := by
+    have : (([1,0,6,0] ++ leBytes 8 t).drop 4).take 8 = leBytes 8 t := by
+      simp [List.take_of_length_le, RT.leBytes_length]
+    rw [leAt, this, RT.leVal_leBytes 8 t (by omega)]
+  have hs : wallClockSet b ([1,0,6,0] ++ leBytes 8 t) =
+      ({ b with timeUs := t }, { data := le 2 1 ++ le 2 6 ++ le 2 0 }) := by
+    unfold wallClockSet
+    rw [if_pos ⟨hl, h1, h2⟩, h3]
+  intro b'
+  have hb : b' = { b with timeUs := t } := by
+    show (wallClockSet b (leBytes 2 1 ++ leBytes 2 6 ++ leBytes 8 t)).1 = _
+    rw [e, hs]
+  rw [hb]
+  refine ⟨rfl, ?_⟩
+  have g1 : leAt [1, 0, 0x0B, 0] 0 2 = 1 := rfl
+  have g2 : leAt [1, 0, 0x0B, 0] 2 2 = 0x0B := rfl
+  unfold wallClockGet
+  rw [if_pos ⟨by simp, g1, g2⟩]
+  rfl
 
 /-- and the client's decoding of that reply (Struct(n_bytes(6), ULINT("µs"))) gives the number back -/
 theorem time_reply_decodes (t : Nat) (ht : t < 2 ^ 64) :
     decode (.struct (.cons (some []) (.nbytes 6) (.cons (some [0xB5, 115]) (.int .ulint) .nil)))
       (leBytes 2 1 ++ leBytes 2 0x0B ++ leBytes 2 0 ++ leBytes 8 t) = .ok (.dict [([0xB5, 115], .int t)], []) := by
-  sorry
+  have h := RT.decodeIntNat_append .ulint t [] (by simp [IntK.size]; omega)
+  simp only [IntK.size, List.append_nil] at h
+  have e : leBytes 2 1 ++ leBytes 2 0x0B ++ leBytes 2 0 ++ leBytes 8 t = [1,0,0x0B,0,0,0] ++ leBytes 8 t := rfl
+  have hs : streamRead 6 ([1,0,0x0B,0,0,0] ++ leBytes 8 t) = .ok ([1,0,0x0B,0,0,0], leBytes 8 t) :=
+    RT.streamRead_append _ _ 6 rfl (by simp)
+  rw [e]
+  simp only [List.cons_append, List.nil_append] at hs ⊢
+  simp [decode, decodeMembers, decodeNBytes, hs, decodeIntVal, h, bind, Except.bind, dictSet, IntK.signed]
 
 /-- the set-time request data the client builds is what the wall-clock object accepts -/
 theorem set_time_request (t : Nat) (ht : t < 2 ^ 64) :
     encode (.struct (.cons none (.int .uint) (.cons none (.int .uint) (.cons none (.int .ulint) .nil))))
       (.list [.int 1, .int 6, .int t]) = .ok (leBytes 2 1 ++ leBytes 2 6 ++ leBytes 8 t) := by
-  sorry
+  have h1 : packInt .uint (.int 1) = .ok (leBytes 2 1) := rfl
+  have h2 : packInt .uint (.int 6) = .ok (leBytes 2 6) := rfl
+  have h3 := (RT.packInt_nat .ulint t rfl (by simp [IntK.hi, IntK.signed, IntK.size]; omega)).1
+  simp only [IntK.size] at h3
+  simp only [encode, encodeMembersSeq, PyVal.iter?, PyVal.seq?, h1, h2, h3, bind, Except.bind, List.append_nil, List.append_assoc]
 
 /-- reply framing: what the target frames is what the client's response class extracts -/
 theorem reply_data_returned (connected : Bool) (svc session toId seq : Nat) (context data : Bytes)
@@ -73,6 +230,31 @@ theorem reply_data_returned (connected : Bool) (svc session toId seq : Nat) (con
     let tr := if connected then Reply.Transport.connected else Reply.Transport.unconnected
     (Reply.parseCip (some raw) tr).data = some data ∧ (Reply.parseCip (some raw) tr).serviceStatus = some 0 ∧
     (Reply.parseCip (some raw) tr).commandStatus = some 0 := by
-  sorry
+  have _ := hs; have _ := hd; have _ := hsess; have _ := htoid; have _ := hseq
+  have hz : leBytes 4 0 = [0, 0, 0, 0] := rfl
+  have hsv : 128 ≤ (UInt8.ofNat (svc % 128 + 128)).toNat := by rw [EP.toNat_ofNat]; omega
+  have hmr : encMRReply svc { status := 0, ext := [], data := data } =
+      [UInt8.ofNat (svc % 128 + 128), 0, 0, 0] ++ data := by
+    simp [encMRReply]
+  intro mr raw tr
+  cases connected
+  · -- unconnected
+    refine parseCip_ok raw tr (le 2 CMD_SEND_RR ++ le 2 (cpfReplyUnconnected mr).length ++ le 4 session)
+      (context ++ le 4 0 ++ cpfReplyUnconnected mr) ?_ ?_ _ hsv data
+      (encHeader CMD_SEND_RR (cpfReplyUnconnected mr).length session 0 context ++
+        (le 4 0 ++ le 2 0 ++ le 2 2 ++ le 2 0 ++ le 2 0 ++ le 2 ITEM_UNCONNECTED_DATA ++ le 2 mr.length)) ?_ ?_
+    · simp [le, RT.leBytes_length]
+    · simp only [raw, frame, encHeader, le, hz, List.append_assoc, Bool.false_eq_true, if_false]
+    · simp [tr, encHeader, le, RT.leBytes_length, hc, Reply.Transport.off]
+    · simp only [raw, frame, cpfReplyUnconnected, mr, hmr, List.append_assoc, Bool.false_eq_true, if_false]
+  · refine parseCip_ok raw tr (le 2 CMD_SEND_UNIT ++ le 2 (cpfReplyConnected toId seq mr).length ++ le 4 session)
+      (context ++ le 4 0 ++ cpfReplyConnected toId seq mr) ?_ ?_ _ hsv data
+      (encHeader CMD_SEND_UNIT (cpfReplyConnected toId seq mr).length session 0 context ++
+        (le 4 0 ++ le 2 0 ++ le 2 2 ++ le 2 ITEM_CONNECTION ++ le 2 4 ++ le 4 toId ++
+         le 2 ITEM_CONNECTED_DATA ++ le 2 (mr.length + 2) ++ le 2 seq)) ?_ ?_
+    · simp [le, RT.leBytes_length]
+    · simp only [raw, frame, encHeader, le, hz, List.append_assoc, if_true]
+    · simp [tr, encHeader, le, RT.leBytes_length, hc, Reply.Transport.off]
+    · simp only [raw, frame, cpfReplyConnected, mr, hmr, List.append_assoc, if_true]
 
 end Pycomm.Cli
